@@ -190,7 +190,7 @@ func (r *persistRunner) Exec(line string) string {
 		return r.dump("after rm " + hx(k))
 	case "tick":
 		// wait for the timer to fire at least once (BatchDelaySeconds = 1 in histories that use tick)
-		time.Sleep(time.Duration(r.delay)*time.Second + 350*time.Millisecond)
+		time.Sleep(time.Duration(r.delay)*time.Second + 700*time.Millisecond)
 		r.tag("tick")
 		return r.dump("after tick")
 	case "reopen":
